@@ -910,7 +910,16 @@ fn eval15(case: &J) -> Eval {
 			ev.violate("success/unexpected-failure", format!("xt {args}: every input translates in the library but xt ended with {}: {:?}", o.status(), show(&o.stderr)));
 		}
 	} else {
-		let (fi, _) = ex.failing.clone().unwrap_or((0, String::new()));
+		let (fi, fname) = ex.failing.clone().unwrap_or((0, String::new()));
+		if c.params.get("transient").is_some() && !text(&o.stderr).contains(fname.as_str()) {
+			// A transient fault made a different input fail than the model predicts (read-call
+			// indices of std's specialised read paths need not match the model's): weak oracle.
+			ev.count("transient_model_mismatch", 1);
+			if o.code != Some(1) || !text(&o.stderr).starts_with("xt error") || !is_prefix(&o.stdout, &ex.maximal) {
+				ev.violate("transient/unexpected", format!("xt {args}: under a transient fault xt ended with {} and {} bytes that are not a prefix of the expected output; stderr {:?}", o.status(), o.stdout.len(), show(&o.stderr)));
+			}
+			return ev;
+		}
 		match ex.failure_kind.as_str() {
 			"missing" => ev.count("fail.missing", 1),
 			"directory" => ev.count("fail.directory", 1),
